@@ -313,6 +313,7 @@ PROPS = {
     },
     "C17": {
         "title": "Disconnects and bans are enforced at the door",
+        "needs_cmds": True,
         "level": "exploration",
         "rule": "rapid state machine in fake time: connect (handshake + login pipelined in one write; 1.2.3 flow, or 1.5 flow agreeing with or without a name field) from one of 7 addresses incl. near-misses "
                 "(10.0.0.2 / 10.0.0.20 / 110.0.0.2 / 10.0.0.200), administrator kick with option none / temporary / permanent, advance the fake "
@@ -326,10 +327,12 @@ PROPS = {
         "needs_cmds": True,
         "quick": {"runs": [{"test": "^TestC17$", "shards": 13, "checks": 100, "timeout": 600},
                            {"test": "^TestC17Burst$", "shards": 2, "checks": 60, "timeout": 600},
-                           {"test": "^TestC17Net$", "shards": 1, "timeout": 600}]},
+                           {"test": "^TestC17Net$", "shards": 1, "timeout": 600},
+                           {"test": "^TestC17Main$", "shards": 2, "checks": 3, "timeout": 900}]},
         "thorough": {"runs": [{"test": "^TestC17$", "shards": 13, "checks": 2500, "timeout": 3400},
                               {"test": "^TestC17Burst$", "shards": 2, "checks": 3700, "timeout": 3400},
-                              {"test": "^TestC17Net$", "shards": 1, "timeout": 600}]},
+                              {"test": "^TestC17Net$", "shards": 1, "timeout": 600},
+                              {"test": "^TestC17Main$", "shards": 4, "checks": 40, "timeout": 3400}]},
     },
     "C11": {
         "title": "File views agree and file operations carry the whole file",
@@ -389,6 +392,7 @@ PROPS = {
     },
     "C19": {
         "title": "Message board and agreement are served whole and lose no post",
+        "needs_cmds": True,
         "level": "exploration",
         "rule": "TestC19 (bubble): rapid-generated board size and agreement size from {0,100,513,5000,33000,60000} bytes, 2-7 clients, 1-4 rounds in "
                 "which 1-6 get-messages requests and 0-4 posts (1-2000 bytes incl. newlines; total kept within the 64 KiB field) are issued at "
@@ -401,10 +405,12 @@ PROPS = {
                 "overlaps a post, or simultaneous logins against an agreement > 512 bytes; distinct = hash(sizes, rounds, logins); in a quarter of the bubble cases a stale MessageBoard.txt.tmp (what a server that died between writing and renaming leaves behind) is present from the start; in a third of the bubble cases the operator edits the agreement file (LF line ends) and reloads it before the simultaneous logins, which must then be shown the new text with converted line ends; the post format is the default, or the operator configured a date layout (NewsDateFormat), a template (NewsDelimiter), or both: the reference renders the configured format; a post sent while the board file cannot be rewritten (unacknowledged: may or may not appear later; everything after it is served as usual); reload requests issued from four goroutines while a round of posts is in flight; the date stamp of every post is the time of the post in the configured layout, cases play at any minute of the day",
         "assumptions": ["goroutine schedules are sampled (bubble: Go scheduler inside the bubble; live: real scheduler)", "board text uses CR line ends (the store converts LF on load)"],
         "quick": {"runs": [{"test": "^TestC19$", "shards": 12, "checks": 60, "timeout": 900},
-                           {"test": "^TestC19Live$", "shards": 2, "timeout": 600, "weight": 2}]},
+                           {"test": "^TestC19Live$", "shards": 2, "timeout": 600, "weight": 2},
+                           {"test": "^TestC19Main$", "shards": 2, "checks": 3, "timeout": 900}]},
         "thorough": {"runs": [{"test": "^TestC19$", "shards": 12, "checks": 2500, "timeout": 3400, "group": 0},
                               {"test": "^TestC19Live$", "shards": 1, "timeout": 900, "group": 1, "weight": 16},
-                              {"test": "^TestC19Live$", "shards": 1, "timeout": 900, "group": 2, "weight": 16, "race": True, "env": {"VERIF_LIVE_BUDGET": "120"}}]},
+                              {"test": "^TestC19Live$", "shards": 1, "timeout": 900, "group": 2, "weight": 16, "race": True, "env": {"VERIF_LIVE_BUDGET": "120"}},
+                              {"test": "^TestC19Main$", "shards": 4, "checks": 40, "timeout": 3400}]},
     },
     "C20": {
         "title": "A crash never leaves persistent state torn",
@@ -471,22 +477,22 @@ _LATER = {
     "C01": "TestC01Register: the per-tracker send path (hook VerifRegister) with name / description / password lengths from {0,1,50,127,128,200,237..240,254,255}: the tracker socket receives exactly one datagram that equals the reference encoding (non-trivial = record longer than 508 bytes); TestC01 scribbles over the source buffer after constructing a field (the field must have kept its own copy); the date case draws the host's time zone (fixed offsets -12:00..+14:00 in quarter hours): the same wall-clock reading must encode to the same bytes",
     "C02": "folder uploads leave leftovers (partial and complete items) that both partitions must agree on; the session client's replies are compared in order; a banner may be configured (same in both worlds)",
     "C03": "while the hostile connections end, three goroutines read the server counters (Stats.Values) in a loop: a reader that blocks forever is a wedge (watchdog); TestC03Net: transfer-port storm kinds, the sentinel downloads a file of its own root before, during and after each batch and after bursts of 40 simultaneous transfer connections, and must get the file's bytes; one valid transfer grant presented on three transfer connections at the same instant (XRef replayed)",
-    "C04": "logins whose file names are odd (.ops, a.b, x.yaml, -dash, ~t, #h), the data-size word of the login transaction varied, creations that must be refused (login with a path separator, 250 bytes) made before the attempt: none of them may open a door",
+    "C04": "logins whose file names are odd (.ops, a.b, x.yaml, -dash, ~t, #h), the data-size word of the login transaction varied, creations that must be refused (login with a path separator, 250 bytes) made before the attempt: none of them may open a door; logins that are an existing login (or the empty guest login) followed by one or two NUL bytes, with that account's password: another byte string, no account",
     "C05": "cells added: ../-names in upload / rename, side-file kinds, an account record without a name (the logged-in name must be the one the account allows); TestC05GhostCategory: post-article to a news path that does not exist, by a requester without create-category / create-bundle: no grouping may appear in memory or in the file",
     "C06": "TestC06RenameForm (update-user rename form), TestC06GraceWindow, TestC06TwoCreators (two creators at one instant: neither account holds a bit its creator lacks), TestC06Bystander (a protected user sharing the kicked user's address is neither dropped nor refused), schedule point before registry delete in TestC06LoginWindow; creators whose privileges were set at run time (set-user) keep the 24 bits that name no privilege, and may request them: the created account holds exactly what was requested",
     "C07": "aliases are made in one folder and then moved to another (shallower or deeper) one: the link must still resolve inside the root; an account with a root of its own is edited through set-user and the server restarted; the file root is spelled with trailing separators / dot segments / relative forms; in a third of the per-account-root cases the root folder has been renamed away before the requests (the account then has no files; nothing of the server's tree may be touched, listed or disclosed instead)",
-    "C08": "client-info requests between grant and transfer; comments of 32 600-65 535 bytes; paths 254-300 folders deep; TestC08ManyGrants: up to hundreds of outstanding grants (files and banner) redeemed in drawn order, each delivers its own bytes; TestC08Slow (child process): 24 MiB file, the reader pauses 33 s after the first MiB and must still get every byte; previews that carry a resume offset (bare data from the offset on)",
-    "C09": "a download of the name while the upload is partial (must not serve the partial under the final name); info forks without the comment-size word; TestC09HugeAnnounced: announced data-fork sizes of 2^31..2^32-1 with a stream that ends early: no file under the final name, the partial holds a prefix; between cut and resume a move request for the unfinished entry: whether the server leaves it or takes the partial data along, the name is not published and the upload goes on where the partial data is",
+    "C08": "client-info requests between grant and transfer; comments of 32 600-65 535 bytes; paths 254-300 folders deep; TestC08ManyGrants: up to hundreds of outstanding grants (files and banner) redeemed in drawn order, each delivers its own bytes; TestC08Slow (child process): 24 MiB file, the reader pauses 33 s after the first MiB and must still get every byte; previews that carry a resume offset (bare data from the offset on); resume data layouts: data fork entry alone, followed by a resource fork entry, or with the fork type in lower case / empty (then the server may resume at the offset or at 0, reply and stream must agree)",
+    "C09": "a download of the name while the upload is partial (must not serve the partial under the final name); info forks without the comment-size word; TestC09HugeAnnounced: announced data-fork sizes of 2^31..2^32-1 with a stream that ends early: no file under the final name, the partial holds a prefix; between cut and resume a move request for the unfinished entry: whether the server leaves it or takes the partial data along, the name is not published and the upload goes on where the partial data is; slow writers: 2 / 11 / 45 fake seconds pass between the segments of the client's stream",
     "C10": "download trees are decorated with stored resource / info side files, aliases and leftovers of interrupted uploads (X.incomplete): each item's bytes must match its own header and names arrive unchanged; PreserveResourceForks drawn in downloads; after preserve uploads the stored forks are checked; a third of the decorated files have an information fork only (what set-comment leaves behind): three forks with an empty resource fork are announced and the rest of the tree must still arrive; one name in fifteen is padded to 200-244 bytes (files; the .incomplete suffix must still fit the file system) or 244-255 bytes (folders)",
-    "C11": "comments of 33 000 / 60 000 bytes; every fourth listed file is downloaded through to its bytes; TestC11BigSizes: sparse files of 2^24..2^32-1 bytes, list == get-info == download reply == size on disk; TestC11WideFolder: folders of 65 536 / 65 537 / 65 540 visible entries plus hidden ones are listed with their entry count",
+    "C11": "comments of 33 000 / 60 000 bytes; every fourth listed file is downloaded through to its bytes; TestC11BigSizes: sparse files of 2^24..2^32-1 bytes, list == get-info == download reply == size on disk; TestC11WideFolder: folders of 65 536 / 65 537 / 65 540 visible entries plus hidden ones are listed with their entry count; create-folder requests whose path names a folder that is not there: nothing appears on disk",
     "C12": "restarts (chats are gone afterwards), invitations by non-members, the refuse-private-chat preference (decline notice names the decliner, never addressed to chat 0), names containing %, unknown chat ids other than 0",
     "C13": "set-user edits of an account whose user is connected (disconnect / same / other name), followed by the same presence comparison",
-    "C14": "latecomers who log in while the plan runs (agreements of several sizes), a 300-article news listing, requests naming unknown chats sent by a connection of their own; TestC14Stalled: the stalled clients start reading again after 1 s .. 10 min of fake time and must receive whole transactions only, every queued broadcast at most once; disconnect requests naming user ids nobody has (with and without ban option), sent by the stranger connection",
+    "C14": "latecomers who log in while the plan runs (agreements of several sizes), a 300-article news listing, requests naming unknown chats sent by a connection of their own; TestC14Stalled: the stalled clients start reading again after 1 s .. 10 min of fake time and must receive whole transactions only, every queued broadcast at most once; disconnect requests naming user ids nobody has (with and without ban option), sent by the stranger connection; request ids 0, 0xFFFFFFFF and 0x80000000 (each at most once per client)",
     "C15": "passwords of 73 / 100 / 255 bytes (bcrypt's limit is 72), names of 300 / 500 / 2000 bytes, new-user over a file that another login's record occupies; no two accounts may share a stored password hash (also the password-less ones); the administrator edits the name of the account it is logged in with and asks for it: get-user, list-users and the file show the new name; TestC15OperatorFile: the account lives in a file that is not named after its login (six file-name patterns sorting before and after <login>.yaml); 1-4 operations out of edit / password change / rename / delete / restart, and after each the listing, a fresh manager and login attempts with every password must agree with the model",
     "C16": "TestC16Wire: creation of shadow logins (./u, u/., U) next to an existing one, set-user spelled in another case, and the account listing fetched before and after an edit must show the edit; TestC16Authz also runs every cell with each of the 24 bits that name no privilege alone (delivered by set-user): nothing may be granted; TestC05 keeps random undefined bits on the set-user path",
-    "C17": "a protected account; kicks aimed at a user who is leaving at that instant; reloads of the ban file racing a ban (the in-memory answer is compared too); TestC17Net (child process, production accept loop): three clients from three loopback addresses, one is kicked with a ban: only its address is refused afterwards, the others reconnect; the ban file cannot be rewritten for a while (its temporary name is taken by a folder): a disconnect-with-ban that is acknowledged must be enforced by the running server; restarts and reloads go by the file",
-    "C18": "stale paths whose last component is missing; the path field absent / empty / zero-count / truncated; delete-item followed by listings of the former sub-paths; posts after deletions keep their parent; TestC18DeepPath: bundles nested 1-40 deep with names of 1-255 bytes (encoded path up to ~5.3 KiB), a category with an article and a reply at the bottom, then nothing / reload / restart: every level lists exactly its child, the articles are listed and fetched, deleting the innermost bundle removes exactly it (non-trivial = encoded path longer than 512 bytes)",
-    "C19": "reloads that fail (unreadable file) and posts that fail (unwritable file; the post may or may not count, nothing else may change), reloads during rounds, operator trims of the board between reads, the date stamp of each post compared with the fake clock (minute of day drawn); posts, the initial board and the agreement hold Mac Roman bytes that are not valid UTF-8",
+    "C17": "a protected account; kicks aimed at a user who is leaving at that instant; reloads of the ban file racing a ban (the in-memory answer is compared too); TestC17Net (child process, production accept loop): three clients from three loopback addresses, one is kicked with a ban: only its address is refused afterwards, the others reconnect; the ban file cannot be rewritten for a while (its temporary name is taken by a folder): a disconnect-with-ban that is acknowledged must be enforced by the running server; restarts and reloads go by the file; TestC17Main: the repository's main program as a child process with a configuration directory of the operator's choice (created by -init): a guest is disconnected with a temporary or permanent ban; the address is refused and another admitted, before and after a restart (SIGTERM or SIGKILL, with or without -init), and the ban file of that directory lists the address",
+    "C18": "stale paths whose last component is missing; the path field absent / empty / zero-count / truncated; delete-item followed by listings of the former sub-paths; posts after deletions keep their parent; TestC18DeepPath: bundles nested 1-40 deep with names of 1-255 bytes (encoded path up to ~5.3 KiB), a category with an article and a reply at the bottom, then nothing / reload / restart: every level lists exactly its child, the articles are listed and fetched, deleting the innermost bundle removes exactly it (non-trivial = encoded path longer than 512 bytes); the operator adds a category to the news file and reloads, a client deletes it: the file a restart would load does not hold it any more",
+    "C19": "reloads that fail (unreadable file) and posts that fail (unwritable file; the post may or may not count, nothing else may change), reloads during rounds, operator trims of the board between reads, the date stamp of each post compared with the fake clock (minute of day drawn); posts, the initial board and the agreement hold Mac Roman bytes that are not valid UTF-8; TestC19Main: the repository's main program as a child process: 1-3 times the operator rewrites Agreement.txt or MessageBoard.txt (20 / 600 / 33000 bytes) and sends SIGHUP - in half of the cases while Banlist.yaml or ThreadedNews.yaml cannot be parsed at that moment; the next guest is shown / the next reader is served exactly the rewritten text and the server is still running",
     "C20": "accounts in the legacy storage form are migrated at start-up (privileges compared over the defined bits); after every kill point the touched accounts are also deleted and, for a crashed rename, the new login is created afresh: both must be acknowledged and no other account may vanish; TestC20Acked also compares the in-memory category with the news file at each acknowledgement and includes news replies; after every kill point the accounts the interrupted update was about are also edited in place: the edit must be acknowledged, loaded by the next restart and leave every other account alone; TestC20Main: the repository's own main program (built from the current tree) is started with -init on a missing configuration directory, the administrator of the default configuration makes 1-4 acknowledged changes over loopback TCP (delete / rename / edit the default guest account, create and delete accounts, board post, news category), the process is killed at the last acknowledgement and started again with or without -init: the account directory (production loader) must hold exactly the accounts the acknowledged changes leave, board and news files the posts and categories, and the restarted server must admit the remaining accounts and refuse the deleted and renamed-away logins",
 }
 for _k, _v in _LATER.items():
